@@ -38,7 +38,11 @@ def handle (j : J) : Except String J := do
   let feed : CS Bytes → Bytes → CS Bytes := if side = "ctl" then ctlFeedD U D 8 else swFeed U
   let (final, counts) := chunks.foldl (fun (acc : CS Bytes × List Nat) c =>
       let s' := feed acc.1 c; (s', acc.2 ++ [s'.delivered.length])) (init, [])
+  -- switch side: the error replies of the trace-keeping loop (theorem sw_answered_or_closed), in order
+  let errs : List J := if side = "ctl" then [] else
+    ((chunks.foldl (swFeedT U) initT).trace.filterMap SwEv.reply).map
+      (fun r => J.arr [J.ofNat r.1, J.ofNat r.2.1, J.ofNat r.2.2.1, J.ofBytes r.2.2.2])
   pure (J.mk [("delivered", J.arr (final.delivered.map J.ofBytes)), ("buf", J.ofBytes final.buf),
-              ("status", J.str (stName final.st)), ("counts", J.ofNats counts)])
+              ("status", J.str (stName final.st)), ("counts", J.ofNats counts), ("errors", J.arr errs)])
 
 def main : IO Unit := serve handle
